@@ -656,6 +656,23 @@ def case_header_box(c):
                 if c.get('wf_arg'):
                     import blimpy
                     _check_helpers(hdr, pay, blimpy.Waterfall(p), V, fr2=fr2, label='Waterfall object')
+                if n <= 8:
+                    # file-side history: the SAME path is overwritten with a file of another geometry / band / orientation and
+                    # queried again -- the helpers and the loader must describe the file that is on disk now
+                    n2, m2 = n + 1, m + 1
+                    hdr2 = S.default_header(n2, c['fch1'] + 3.0, -c['foff'], tsamp * 2, tstart=59105.5 + 1.0 / 64, source_name='BOXSRC2')
+                    pay2 = (5.0 + np.arange(m2 * n2).reshape(m2, n2)).astype(np.float32)
+                    S.write_fil(p, hdr2, pay2)
+                    _check_helpers(hdr2, pay2, p, V, label='file (path reused for another file)')
+                    try:
+                        fr3 = stg.Frame(waterfall=p)
+                        if tuple(fr3.shape) != (m2, n2) or bool(fr3.ascending) != (hdr2['foff'] > 0) or fr3.source_name != 'BOXSRC2':
+                            V('Frame.__init__(waterfall=path)', 'stale_after_path_reuse', 'after the path was overwritten the loaded frame has shape %s '
+                              'ascending=%r source=%r; the file holds (%d, %d), foff=%r, BOXSRC2' % (fr3.shape, fr3.ascending, fr3.source_name, m2, n2, hdr2['foff']))
+                    except SystemExit:
+                        pass
+                    except Exception as e:
+                        V('Frame.__init__(waterfall=path)', 'raised', 'after path reuse: %s: %s' % (type(e).__name__, e))
             finally:
                 _rm(p)
             if m * n >= 2:
